@@ -178,16 +178,27 @@ def run_shard(spec, acc):
                     continue
             except btc.Malformed:
                 pass
-            mark = len(s.bus.events)
             req = rq.sign_auth_request(rq.AUTH_PATHS[0], raw, 0, rq.gen_receipt(rng),
                                        rq.gen_proof(rng))
-            reply, exc, out = s.request(req)
-            acc.count("stack_malformed")
-            apdus = s.bus.apdus(mark)
-            if exc is not None or reply is None or reply.get("errorcode") != -102 or apdus:
-                acc.violation("undecodable-tx-not-102:%s" % cls.split("@")[0],
-                              {"reply": reply, "exc": repr(exc), "apdus": len(apdus),
-                               "tx": raw.hex()[:300]}, {"kind": "stackmal", "tx": raw.hex()})
+            # the very same request up to three times in a row, sometimes right after a
+            # well-formed one: the verdict may not depend on what was asked before
+            if rng.random() < 0.5:
+                good = btctx.gen_tx(rng, max_in=2, max_out=2)
+                s.request(rq.sign_auth_request(rq.AUTH_PATHS[0], good["raw"], 0,
+                                               rq.gen_receipt(rng), rq.gen_proof(rng)))
+                acc.count("stack_malformed_after_wellformed")
+            for rep in range(rng.choice([1, 2, 3])):
+                mark = len(s.bus.events)
+                reply, exc, out = s.request(req)
+                acc.count("stack_malformed")
+                apdus = s.bus.apdus(mark)
+                if exc is not None or reply is None or reply.get("errorcode") != -102 or apdus:
+                    acc.violation("undecodable-tx-not-102:%s%s" % (
+                        cls.split("@")[0], ":when-repeated" if rep else ""),
+                        {"reply": reply, "exc": repr(exc), "apdus": len(apdus),
+                         "tx": raw.hex()[:300], "repetition": rep},
+                        {"kind": "stackmal", "tx": raw.hex()})
+                    break
         for i in range(spec["n_stack"]):
             tx = btctx.gen_tx(rng, max_in=3, max_out=3)
             nrec = len(dev.sign_records)
